@@ -13,7 +13,9 @@
             sequences of assertThat / expectThat / assert_that statements on
             matchers that match or mismatch with given details, and of statements
             that raise (skip, failure, expected failure, unexpected success, error),
-            after some details were attached already. *)
+            after some details were attached already; setUp and tearDown upcall the
+            base method at a given position among their statements (the statement
+            does not mention the position: it must not matter). *)
 From Coq Require Export String.
 From TT Require Import Lib.Base Lib.Sort Model.TextRepr Model.Assertions.
 
